@@ -215,8 +215,13 @@ func oracleC16(f *sessionFam, w *World, res *Result) []Violation {
 					l.add("body-equals-batch", "", fmt.Sprintf("%s [%s]: poll response #%d decodes to %v but the batch handed to the transport (flush event #%d) was %v", a, rctx, r.ID, clipAll(g), want.seq, clipAll(want.pk)))
 				}
 			}
-			if ce != "" && !compress && len(g) > 0 && g[0] != "noop|" {
-				l.add("compression-only-when-requested", "", fmt.Sprintf("%s [%s]: response #%d compressed although no packet of the batch asked for it", a, rctx, r.ID))
+			if ce != "" && !compress {
+				// (the transport's own noop and close packets carry no options and ask for nothing)
+				own := ""
+				if len(g) == 0 || g[0] == "noop|" {
+					own = "transport-own-packets"
+				}
+				l.add("compression-only-when-requested", own, fmt.Sprintf("%s [%s]: response #%d (%v) compressed although no packet of the batch asked for it", a, rctx, r.ID, clipAll(got)))
 			}
 			if ce == "" && compress && compressionOn && len(body) >= thr && ae != "" {
 				// not required by the statement ("only when"), counted for the evidence
@@ -317,7 +322,9 @@ func oracleC17(f *sessionFam, w *World, res *Result) []Violation {
 			if len(acao) > 0 {
 				l.add("cors-only-when-configured", "", fmt.Sprintf("%s: Access-Control-Allow-Origin %q without a CORS policy", r.Client, acao[0]))
 			}
-		} else if r.Status == 200 {
+		} else {
+			// every response of the engine goes through the CORS middleware first, whatever its status turns out to be
+			// (an overlap refused with 400, a data request aborted with 429 by the transport's own close)
 			allowed, depends := corsModel(o.Cors, origin)
 			if len(acao) > 1 {
 				l.add("cors-single-header", "", fmt.Sprintf("%s: %d Access-Control-Allow-Origin headers", r.Client, len(acao)))
